@@ -19,19 +19,20 @@ import (
 // ---------------------------------------------------------------------------
 
 func init() {
-	mk := func(id string, assume []string) *ActionSpec {
+	mk := func(id string, assume []string, gens ...string) *ActionSpec {
+		gens = append([]string{"TxnGen.cfg"}, gens...)
 		return &ActionSpec{
 			ID: id, Module: "Txn",
-			MCCfgs: []string{"TxnMC.cfg", "TxnMC_env.cfg"}, GenCfgs: []string{"TxnGen.cfg"},
+			MCCfgs: []string{"TxnMC_q.cfg", "TxnMC_env_q.cfg"}, MCThor: []string{"TxnMC.cfg", "TxnMC_env.cfg"}, GenCfgs: gens,
 			NSim: [2]int{150, 2500}, NRand: [2]int{40, 400},
 			Setup: txnSetup, Exec: txnExec, Random: nil, Sig: txnSig, Assume: assume, MCWorkers: 12,
 		}
 	}
-	c05 := mk("C05", []string{"cells are small integers and NULL; statement forms: INSERT (1 and 2 rows, wrong length), UPDATE/DELETE with and without WHERE, REPLACE on one key column, ADD/DROP/RENAME column, on file tables and a temporary table"})
+	c05 := mk("C05", []string{"cells are small integers and NULL; statement forms: INSERT (1 and 2 rows, wrong length), UPDATE/DELETE with and without WHERE, REPLACE on one key column, ADD/DROP/RENAME column, on file tables and a temporary table; INSERT..SELECT, column lists, UPDATE..FROM join, multi-assignment UPDATE, ADD FIRST / DEFAULT expression, CREATE TABLE AS SELECT, SET ENCODING"}, "TxnGen_create.cfg")
 	c05.Random = func(r *core.Run, k int) (Action, []Action) { return txnRandom(r, k, "dml") }
-	c08 := mk("C08", []string{"failure causes modelled: division by zero at one row of a multi-row UPDATE, wrong row length, unknown field after RENAME/DROP, duplicate column, existing file, missing file"})
+	c08 := mk("C08", []string{"failure causes modelled: division by zero at one row of a multi-row UPDATE, wrong row length, unknown field after RENAME/DROP, duplicate column, existing file, missing file, failing DEFAULT expression, ambiguous join update, CREATE TABLE AS SELECT with wrong names / failing query, COMMIT that cannot encode a changed file"}, "TxnGen_create.cfg", "TxnGen_commitfail.cfg")
 	c08.Random = func(r *core.Run, k int) (Action, []Action) { return txnRandom(r, k, "fail") }
-	c20 := mk("C20", []string{"the environment is a second real csvq transaction in the same OS process with a 50 ms wait timeout"})
+	c20 := mk("C20", []string{"the environment is a second real csvq transaction in the same OS process with a 50 ms wait timeout; reads by identifier, sub-query, aggregate and table function (f2 carries a byte order mark)"}, "TxnGen_reads.cfg")
 	c20.Random = func(r *core.Run, k int) (Action, []Action) { return txnRandom(r, k, "env") }
 	Registry["C05"] = &Check{Level: "model_checking", Run: func(r *core.Run) { runActionCheck(r, c05) }}
 	Registry["C08"] = &Check{Level: "model_checking", Run: func(r *core.Run) { runActionCheck(r, c08) }}
@@ -45,6 +46,26 @@ type jtable struct {
 	Absent bool     `json:"absent"`
 }
 
+// cellH is the specification's H: a text that is not a number and that Shift_JIS cannot spell
+const cellH = 777
+const textH = "\ud55c"
+const bom = "\ufeff"
+
+func showCell(s string) string {
+	if s == textH {
+		return "H"
+	}
+	return s
+}
+
+// tableBytes: the initial file of table f; f2 starts with a byte order mark (csvq keeps it)
+func tableBytes(f string, t jtable) string {
+	if f == "f2" {
+		return bom + tableCSV(t)
+	}
+	return tableCSV(t)
+}
+
 func tableCSV(t jtable) string {
 	var b strings.Builder
 	b.WriteString(strings.Join(t.Cols, ","))
@@ -54,7 +75,9 @@ func tableCSV(t jtable) string {
 			if i > 0 {
 				b.WriteByte(',')
 			}
-			if c != -1 {
+			if c == cellH {
+				b.WriteString(textH)
+			} else if c != -1 {
 				fmt.Fprintf(&b, "%d", c)
 			}
 		}
@@ -73,10 +96,12 @@ func txnInitTables(init Action) map[string]jtable {
 func txnSetup(dir string, init Action) []string {
 	for f, t := range txnInitTables(init) {
 		if !t.Absent {
-			writeFile(filepath.Join(dir, f+".csv"), tableCSV(t))
+			writeFile(filepath.Join(dir, f+".csv"), tableBytes(f, t))
 		}
 	}
-	return []string{"DECLARE tt VIEW (id, v);"}
+	// nobody else holds these files (the environment process commits and leaves): a lock that is still there
+	// was left behind by an earlier statement - do not wait 10 s for it
+	return []string{"SET @@WAIT_TIMEOUT TO 0.5;", "DECLARE tt VIEW (id, v);"}
 }
 
 func tname(t string) string {
@@ -151,6 +176,28 @@ func txnSQL(a Action) string {
 		return fmt.Sprintf("ALTER TABLE %s RENAME v TO u;", t)
 	case "renameuv":
 		return fmt.Sprintf("ALTER TABLE %s RENAME u TO v;", t)
+	case "updateswap":
+		if k == 0 {
+			return fmt.Sprintf("UPDATE %s SET id = v, v = id;", t)
+		}
+		return fmt.Sprintf("UPDATE %s SET id = v, v = id WHERE id = %d;", t, k)
+	case "inserth":
+		return fmt.Sprintf("INSERT INTO %s VALUES (%d, '%s');", t, k, textH)
+	case "selectfn":
+		return "SELECT * FROM CSV(',', " + t + ", 'UTF8');"
+	case "setenc":
+		return fmt.Sprintf("ALTER TABLE %s SET ENCODING TO SJIS;", t)
+	case "createas":
+		u := tname(aStr(a, "u"))
+		switch k {
+		case 1:
+			return "CREATE TABLE `f3.csv` (id) AS SELECT id, v FROM " + u + ";"
+		case 2:
+			return "CREATE TABLE `f3.csv` (id, id) AS SELECT id, v FROM " + u + ";"
+		case 3:
+			return "CREATE TABLE `f3.csv` (id, v) AS SELECT id, 1 % 0 FROM " + u + ";"
+		}
+		return "CREATE TABLE `f3.csv` (id, v) AS SELECT id, v FROM " + u + ";"
 	case "create":
 		return "CREATE TABLE `f3.csv` (id, v);"
 	case "commit":
@@ -172,7 +219,7 @@ func showTable(out string) []string {
 	l := append([]string{}, ts[0].Header...)
 	for _, row := range ts[0].Rows {
 		for _, c := range row {
-			l = append(l, c.String())
+			l = append(l, showCell(c.String()))
 		}
 	}
 	return l
@@ -190,7 +237,7 @@ func showFile(path string, zeroIsAbsent bool) []string {
 		}
 		return []string{"PLACEHOLDER"}
 	}
-	lines := strings.Split(strings.TrimRight(string(b), "\n"), "\n")
+	lines := strings.Split(strings.TrimRight(strings.TrimPrefix(string(b), bom), "\n"), "\n")
 	if len(lines) <= 1 {
 		return []string{"EMPTY"}
 	}
@@ -201,7 +248,7 @@ func showFile(path string, zeroIsAbsent bool) []string {
 			if i > 0 && c == "" {
 				c = "NULL"
 			}
-			l = append(l, c)
+			l = append(l, showCell(c))
 		}
 	}
 	return l
@@ -219,7 +266,7 @@ func txnExec(p *sut.Proc, a Action) Out {
 			return Out{K: "val", Vals: v[2:]}
 		}
 		return Out{K: "val", Vals: v}
-	case "select", "selectsub":
+	case "select", "selectsub", "selectfn":
 		r := p.Exec(txnSQL(a))
 		if r.Err != "" {
 			return Out{K: "err", E: errClass(r), Vals: []string{}}
@@ -229,7 +276,7 @@ func txnExec(p *sut.Proc, a Action) Out {
 		return Out{K: "val", Vals: showFile(filepath.Join(p.Dir, aStr(a, "t")+".csv"), true)}
 	case "env":
 		return envCommit(p, aStr(a, "t"))
-	case "create", "commit", "rollback":
+	case "create", "commit", "rollback", "setenc", "createas":
 		r := p.Exec(txnSQL(a))
 		if r.Err != "" {
 			return Out{K: "err", E: errClass(r), Vals: []string{}}
@@ -295,7 +342,7 @@ func txnSig(a Action, exp, obs Out) string {
 		s += ":err=" + obs.E
 	case exp.K == "err":
 		s += ":missing-err=" + exp.E
-	case actName(a) == "select" || actName(a) == "disk":
+	case strings.HasPrefix(actName(a), "select") || actName(a) == "disk":
 		s += ":contents"
 	default:
 		s += ":count"
@@ -304,7 +351,8 @@ func txnSig(a Action, exp, obs Out) string {
 }
 
 func txnA(act, t string, k, x int) Action { return Action{"act": act, "t": t, "k": k, "x": x, "u": ""} }
-func txnA2(act, t, u string) Action { return Action{"act": act, "t": t, "k": 0, "x": 0, "u": u} }
+func txnA2(act, t, u string) Action       { return Action{"act": act, "t": t, "k": 0, "x": 0, "u": u} }
+func txnA3(act, u string, k int) Action   { return Action{"act": act, "t": "", "k": k, "x": 0, "u": u} }
 
 // txnRandom: longer histories over bigger tables (around the 160-row threshold of parallel evaluation)
 func txnRandom(r *core.Run, hk int, flavour string) (Action, []Action) {
@@ -340,7 +388,26 @@ func txnRandom(r *core.Run, hk int, flavour string) (Action, []Action) {
 		}
 		x := rng.Intn(100)
 		switch {
+		case x < 2:
+			switch rng.Intn(4) {
+			case 0:
+				acts = append(acts, txnA("setenc", t, 0, 0))
+			case 1:
+				acts = append(acts, txnA("inserth", t, key(), 0))
+			case 2:
+				acts = append(acts, txnA3("createas", []string{"f1", "f2", "tt"}[rng.Intn(3)], rng.Intn(4)))
+			default:
+				k := key()
+				if rng.Intn(3) == 0 {
+					k = 0
+				}
+				acts = append(acts, txnA("updateswap", t, k, 0))
+			}
 		case x < 6:
+			if t != "tt" && rng.Intn(3) == 0 {
+				acts = append(acts, txnA("selectfn", t, 0, 0))
+				break
+			}
 			acts = append(acts, txnA([]string{"selectsub", "selectagg"}[rng.Intn(2)], t, 0, 0))
 		case x < 9:
 			u := []string{"f1", "f2", "tt"}[rng.Intn(3)]
@@ -396,7 +463,7 @@ func txnRandom(r *core.Run, hk int, flavour string) (Action, []Action) {
 				acts = append(acts, txnA("select", t, 0, 0))
 			case "env":
 				f := []string{"f1", "f2"}[rng.Intn(2)]
-				acts = append(acts, txnA("env", f, 0, 0), txnA("select", f, 0, 0))
+				acts = append(acts, txnA("env", f, 0, 0), txnA([]string{"select", "select", "selectfn", "selectsub"}[rng.Intn(4)], f, 0, 0))
 			default:
 				acts = append(acts, txnA("select", t, 0, 0))
 			}
@@ -428,7 +495,11 @@ func runC01(r *core.Run) {
 		"interrupts at statement positions are covered by the signal enumeration of C11, not here",
 	}
 	states, trans := 0, 0
-	for _, c := range []string{"TxnMC.cfg", "TxnMC_env.cfg"} {
+	mcCfgs := []string{"TxnMC_q.cfg", "TxnMC_env_q.cfg"}
+	if r.Thorough {
+		mcCfgs = append(mcCfgs, "TxnMC.cfg", "TxnMC_env.cfg")
+	}
+	for _, c := range mcCfgs {
 		m := r.MustHold(core.TLCOpts{Module: "TxnMC", Cfg: c, Workers: 12, Timeout: 40 * time.Minute})
 		states += m.Distinct
 		trans += m.Generated
@@ -440,39 +511,45 @@ func runC01(r *core.Run) {
 		nsim = 4000
 	}
 	var behs []c01beh
-	r.RunTLC(core.TLCOpts{Module: "TxnScriptGen", Cfg: "TxnScriptGen.cfg", Workers: 1, Simulate: fmt.Sprintf("num=%d", nsim), Depth: 60,
-		Seed: r.Seed * 17, Timeout: 20 * time.Minute,
-		OnTrace: func(raw json.RawMessage) {
-			if !r.Distinct("beh:" + string(raw)) {
-				return
-			}
-			var steps []json.RawMessage
-			if err := json.Unmarshal(raw, &steps); err != nil || len(steps) < 2 {
-				core.Fail("bad behaviour: %v", err)
-			}
-			var b c01beh
-			_ = json.Unmarshal(steps[0], &b.init)
-			for _, st := range steps[1:] {
-				var x struct {
-					A     Action              `json:"a"`
-					Exp   Out                 `json:"exp"`
-					Final map[string][]string `json:"final"`
+	for gi, gcfg := range []string{"TxnScriptGen.cfg", "TxnScriptGen_commitfail.cfg", "TxnScriptGen_create.cfg"} {
+		ns := nsim
+		if gi > 0 {
+			ns = nsim * 2
+		}
+		r.RunTLC(core.TLCOpts{Module: "TxnScriptGen", Cfg: gcfg, Workers: 1, Simulate: fmt.Sprintf("num=%d", ns), Depth: 60,
+			Seed: r.Seed*17 + int64(gi), Timeout: 20 * time.Minute,
+			OnTrace: func(raw json.RawMessage) {
+				if !r.Distinct("beh:" + string(raw)) {
+					return
 				}
-				if err := json.Unmarshal(st, &x); err != nil {
-					core.Fail("bad step: %v", err)
+				var steps []json.RawMessage
+				if err := json.Unmarshal(raw, &steps); err != nil || len(steps) < 2 {
+					core.Fail("bad behaviour: %v", err)
 				}
-				if actName(x.A) == "end" {
-					b.how = aStr(x.A, "t")
-					b.final = x.Final
-				} else {
-					b.acts = append(b.acts, x.A)
-					b.exps = append(b.exps, x.Exp)
+				var b c01beh
+				_ = json.Unmarshal(steps[0], &b.init)
+				for _, st := range steps[1:] {
+					var x struct {
+						A     Action              `json:"a"`
+						Exp   Out                 `json:"exp"`
+						Final map[string][]string `json:"final"`
+					}
+					if err := json.Unmarshal(st, &x); err != nil {
+						core.Fail("bad step: %v", err)
+					}
+					if actName(x.A) == "end" {
+						b.how = aStr(x.A, "t")
+						b.final = x.Final
+					} else {
+						b.acts = append(b.acts, x.A)
+						b.exps = append(b.exps, x.Exp)
+					}
 				}
-			}
-			if b.final != nil {
-				behs = append(behs, b)
-			}
-		}})
+				if b.final != nil {
+					behs = append(behs, b)
+				}
+			}})
+	}
 	type res struct{ sig, what string }
 	results := make([]res, len(behs))
 	runOne := func(i int, b c01beh) res {
@@ -483,7 +560,7 @@ func runC01(r *core.Run) {
 		initBytes := map[string]string{}
 		for f, t := range txnInitTables(b.init) {
 			if !t.Absent {
-				initBytes[f] = tableCSV(t)
+				initBytes[f] = tableBytes(f, t)
 				writeFile(filepath.Join(repo, f+".csv"), initBytes[f])
 			}
 		}
@@ -491,10 +568,14 @@ func runC01(r *core.Run) {
 		sql.WriteString("DECLARE tt VIEW (id, v);\n")
 		var selects []Out
 		var selectAgg []bool
+		attrChanged := map[string]bool{} // SET ENCODING is a change of the file although the table stays the same
 		for k, a := range b.acts {
+			if actName(a) == "setenc" {
+				attrChanged[aStr(a, "t")] = true
+			}
 			sql.WriteString(txnSQL(a))
 			sql.WriteByte('\n')
-			if n := actName(a); (n == "select" || n == "selectsub" || n == "selectagg") && b.exps[k].K == "val" {
+			if n := actName(a); (n == "select" || n == "selectsub" || n == "selectagg" || n == "selectfn") && b.exps[k].K == "val" {
 				selects = append(selects, b.exps[k])
 				selectAgg = append(selectAgg, n == "selectagg")
 			}
@@ -511,7 +592,7 @@ func runC01(r *core.Run) {
 			return res{"c01:fatal", "internal failure\n" + ctx}
 		}
 		switch b.how {
-		case "error":
+		case "error", "commitfail":
 			if rs.Exit == 0 {
 				return res{"c01:error-end:exit0", "a failing statement did not end the run with an error\n" + ctx}
 			}
@@ -534,7 +615,7 @@ func runC01(r *core.Run) {
 				got = append([]string{}, t.Header...)
 				for _, row := range t.Rows {
 					for _, c := range row {
-						got = append(got, c.String())
+						got = append(got, showCell(c.String()))
 					}
 				}
 			}
@@ -558,7 +639,7 @@ func runC01(r *core.Run) {
 				return res{"c01:" + b.how + "-end:" + kind, fmt.Sprintf("after the run %s.csv holds %v, specification %v\n%s", f, got, want, ctx)}
 			}
 			// files never written stay byte-identical
-			if ib, ok := initBytes[f]; ok {
+			if ib, ok := initBytes[f]; ok && !attrChanged[f] {
 				init := showFileContent(ib)
 				if sameOut(Out{K: "val", Vals: init}, Out{K: "val", Vals: want}) {
 					if nb, _ := os.ReadFile(filepath.Join(repo, f+".csv")); string(nb) != ib {
@@ -576,6 +657,9 @@ func runC01(r *core.Run) {
 	reported := map[string]bool{}
 	for i, x := range results {
 		r.Count("procedures_run_"+behs[i].how, 1)
+		for k, a := range behs[i].acts {
+			r.Count("step:"+actName(a)+":"+behs[i].exps[k].K, 1)
+		}
 		if i < 2 {
 			var prog []string
 			for _, a := range behs[i].acts {
@@ -598,7 +682,7 @@ func runC01(r *core.Run) {
 }
 
 func showFileContent(content string) []string {
-	lines := strings.Split(strings.TrimRight(content, "\n"), "\n")
+	lines := strings.Split(strings.TrimRight(strings.TrimPrefix(content, bom), "\n"), "\n")
 	if len(lines) <= 1 {
 		return []string{"EMPTY"}
 	}
@@ -609,7 +693,7 @@ func showFileContent(content string) []string {
 			if i > 0 && c == "" {
 				c = "NULL"
 			}
-			l = append(l, c)
+			l = append(l, showCell(c))
 		}
 	}
 	return l
